@@ -171,6 +171,11 @@ func (be *bytesEval) bytesAt(v ssa.Value, at ssa.Instruction) []byteSeg {
 		if b, ok := x.Type().Underlying().(*types.Basic); ok && b.Kind() == types.String {
 			return []byteSeg{{K: "param", V: x, N: -1}}
 		}
+		if arr, ok := x.Type().Underlying().(*types.Array); ok {
+			if b, ok := arr.Elem().Underlying().(*types.Basic); ok && b.Kind() == types.Uint8 {
+				return []byteSeg{{K: "param", V: x, N: arr.Len()}}
+			}
+		}
 	case *ssa.Call:
 		d := be.p.Describe(x)
 		switch d.Name {
